@@ -543,8 +543,7 @@ def _gen_more(base):
     pos.update({k.value.id: k.arg for k in hcalls[0].keywords if isinstance(k.value, ast.Name)})
     emit("header.py: (Header field, start, stop, stripped) read from the second line (`time`: via strptime)", "headerFieldSlices", "List (String × Nat × Nat × Bool)",
          "[" + ", ".join(f"({_lq(pos.get(nm, 'time'))}, {a}, {b}, {'true' if st else 'false'})" for a, nm, b, st in sorted(fs)) + "]")
-    emit("header.py: the Header fields given positionally to `Header(...)` by deserialize = the dataclass field order", "headerCtorOrder", "List String",
-         _lstrs([pos.get(a.id, "?") if isinstance(a, ast.Name) else "?" for a in hcalls[0].args]))
+    emit("header.py: the dataclass fields of `Header` in order (the adapters construct it positionally)", "headerDataclassFields", "List String", _lstrs(hfields))
     hse = _method(hcls, "serialize")
     joined = [n for n in ast.walk(hse) if isinstance(n, ast.JoinedStr) and sum(isinstance(v, ast.FormattedValue) for v in n.values) >= 5][0]
     emit("header.py: fields written into the second line, in order", "headerWriteOrder", "List String",
